@@ -412,6 +412,7 @@ func ruleC01(c *Ctx) {
 	// the EncryptedAssertion handler promotes plaintext to a direct child of the element it processes: the same
 	// direct-child requirement applies to it (shared with C07-R3)
 	encryptedDirectChild(c, "C01-R4")
+	decodedImmutable(c, "C01-R8")
 	screenRule(c, "C01-R5")
 	sideDoors(c, "C01-R6")
 	c.rule("C01-R7", "signatures are checked against the store and clock configured NOW: the validation context is built per call in validationContext() from sp.IDPCertificateStore / sp.Clock (no caching), and every Validate receiver comes from it")
@@ -873,6 +874,7 @@ func ruleC04(c *Ctx) {
 	assertionFlags(c, "C04-R2")
 	c.rule("C04-R5", "what is marked validated is what was verified: appended assertions are freshly allocated objects decoded from their own verified element (shared with C01-R2); the verification context is the configured one (shared with C02-R1)")
 	appendProvenance(c, "C04-R5")
+	decodedImmutable(c, "C04-R6")
 	ctxWiring(c, "C04-R5/context")
 	// R3
 	for _, ff := range flagFields[:4] {
@@ -1050,6 +1052,7 @@ func ruleC10(c *Ctx) {
 	c.rule("C10-R2", "validation dominates acceptance; fatal verification errors; decode from the verified root or the raw root on the missing-signature continuation; flag <=> verified root, false under skip")
 	c.rule("C10-R3", "kind separation: root structs carry a tagged XMLName (namespace, local name), pairwise distinct except Response/UnverifiedBaseResponse; each validator decodes its own kind")
 	c.rule("C10-R4", "sibling agreement: the two logout validators have the same path skeleton (skip handling, error discipline, flag rule)")
+	decodedImmutable(c, "C10-R6")
 	lr := c.kernel("(*SAMLServiceProvider).ValidateDecodedLogoutResponse", "*")
 	guardInventory(c, "C10-R1", lr, logoutRows("LR", "ServiceProviderSLOURL", true), nil)
 	lq := c.kernel("(*SAMLServiceProvider).ValidateDecodedLogoutRequest", "*")
